@@ -30,7 +30,12 @@ fn record_failure(rep: &Report, core: Core, prefix: &str, c: &ICase, expect: &[u
         Outcome::Err(_) => "rejected",
         Outcome::Panic { .. } => "panic",
     };
-    let key = format!("C01/{}/core={}/mnem={}/nops={}", kind, corename, c.mnem, c.ops.len());
+    let mut key = format!("C01/{}/core={}/mnem={}/nops={}", kind, corename, c.mnem, c.ops.len());
+    if prefix != REDUCED_PREFIX {
+        if let Some(d) = prefix.strip_prefix(".device ") {
+            key.push_str(&format!("/device={}", d.trim()));
+        }
+    }
     rep.violation(
         &key,
         || {
@@ -256,7 +261,10 @@ pub fn run(tier: Tier) -> i32 {
     //    instruction itself, whatever precedes it
     let mut n_pc_after_data = 0usize;
     {
-        let datas: [(&str, Vec<u8>); 6] = [
+        let datas: [(&str, Vec<u8>); 8] = [
+            // (strings are emitted as their UTF-8 bytes, padded to a whole word)
+            (".db \"\u{b0}\"", vec![0xc2, 0xb0]),
+            (".db \"\u{b5}s\"", vec![0xc2, 0xb5, b's', 0]),
             (".dw 0x1111", vec![0x11, 0x11]),
             (".db 1, 2, 3", vec![1, 2, 3, 0]),
             (".db \"a\"", vec![b'a', 0]),
@@ -324,6 +332,48 @@ pub fn run(tier: Tier) -> i32 {
         }
     }
 
+    // 8. configurations: the same words on every class of device that has the instruction. One
+    //    device per distinct set of feature flags (the one with the largest flash); every small
+    //    case that no flag of the row removes (devspec of C13) must assemble to the ISA word there
+    //    too - lds/sts in their one-word form on rows flagged Avr8l
+    let mut n_dev_classes = 0usize;
+    let n_dev_cases = AtomicU64::new(0);
+    {
+        let mut by_flags: std::collections::BTreeMap<Vec<String>, sut::DeviceRow> = std::collections::BTreeMap::new();
+        for d in sut::devices() {
+            let k: Vec<String> = d.flags.iter().cloned().collect();
+            match by_flags.get(&k) {
+                Some(o) if o.flash_words >= d.flash_words => {}
+                _ => {
+                    by_flags.insert(k, d);
+                }
+            }
+        }
+        n_dev_classes = by_flags.len();
+        // thorough: every row of the table
+        let rows: Vec<sut::DeviceRow> = if tier.thorough() { sut::devices() } else { by_flags.into_values().collect() };
+        let work: Vec<(&sut::DeviceRow, Vec<ICase>)> = rows
+            .iter()
+            .flat_map(|d| {
+                let core = if d.flags.contains("Avr8l") { Core::Reduced } else { Core::Full };
+                let mut mine: Vec<ICase> = small.iter().filter(|c| super::c13::removed_by_case(c, &d.flags).is_none() && isa::encode(core, c.mnem, &c.ops).is_some()).cloned().collect();
+                if core == Core::Reduced {
+                    mine.extend(red.iter().step_by(7).cloned());
+                } else if !d.flags.contains("Tiny1x") {
+                    mine.extend((0..64u64).map(|i| icase::big_case((2 << 22) + i * 0x10_0fd % (1 << 22))));
+                }
+                let per = ((d.flash_words / 4) as usize).clamp(32, 2048);
+                mine.chunks(per).map(|ch| (d, ch.to_vec())).collect::<Vec<_>>()
+            })
+            .collect();
+        work.par_iter().for_each(|(d, ch)| {
+            let core = if d.flags.contains("Avr8l") { Core::Reduced } else { Core::Full };
+            n_dev_cases.fetch_add(ch.len() as u64, Ordering::Relaxed);
+            run_cases(&rep, core, &format!(".device {}\n", d.name), ch, &stats);
+        });
+    }
+    rep.guard(n_dev_classes >= 8, "fewer than 8 distinct device classes");
+
     let total = stats.cases.load(Ordering::Relaxed);
     rep.guard(n_small > 90_000, "small operand spaces shrank");
     rep.guard(ncls >= 110 && ncls <= 130, "unexpected number of mnemonic classes");
@@ -348,7 +398,8 @@ pub fn run(tier: Tier) -> i32 {
         "rule": "every legal operand tuple of every mnemonic (full core: all small spaces + lds/sts 32x2^16 + jmp/call 2^22; reduced core: lds/sts 16x128), packed 4096 per program and localised one-per-build on any mismatch; distinct_nontrivial = distinct reference encodings among the single-instruction cases (every case emits >= 1 word, so all are non-trivial)",
         "exhaustive": true,
         "space": {"small_full_core": n_small, "big_full_core": icase::BIG_TOTAL, "reduced_core": n_red,
-                  "adjacent_class_pairs": n_pairs, "adjacent_class_triples": n_triples, "mnemonic_classes": ncls, "label_operand_programs": n_label_programs, "pc_operand_after_data_programs": n_pc_after_data, "lines_of_the_large_symbolic_program": n_large},
+                  "adjacent_class_pairs": n_pairs, "adjacent_class_triples": n_triples, "mnemonic_classes": ncls, "label_operand_programs": n_label_programs, "pc_operand_after_data_programs": n_pc_after_data, "lines_of_the_large_symbolic_program": n_large,
+                  "device_classes": n_dev_classes, "cases_under_a_selected_device": n_dev_cases.load(Ordering::Relaxed)},
         "batches": stats.batches.load(Ordering::Relaxed),
         "batches_localised_one_per_build": stats.localised.load(Ordering::Relaxed),
         "reference_self_check": {"first_words_decoded": sc.decoded_first_words, "first_words_unknown": sc.unknown_first_words, "roundtrips": sc.roundtrips},
